@@ -1,5 +1,6 @@
 import Tmv.Lemmas.ValBootstrap
-import Tmv.Lemmas.ValTurns
+import Tmv.Lemmas.ValIncrK
+import Tmv.Lemmas.ValMap
 import Tmv.Lemmas.ValUpdBound
 /-! C08 — validator-set updates, proposer rotation and historical lookup are exact.
 Theorems about the model of `types/validator_set.go`, `state/store.go`, `state/execution.go`
@@ -496,7 +497,70 @@ theorem chain_reach_handshake (ih : Int) (valz iv : List Val) (s0 : Sys)
         exact ⟨hr, hr1⟩
     · cases h0
 
+/-! ## what the set is after a batch -/
+
+/-- **update_refines_map.** After a successful non-empty batch the set, read as a map
+address → power, is the old map updated by the batch (`applyBatchMap`): an entry with positive
+power sets the power of its address, an entry with power 0 deletes it, every other address keeps
+its power. Together with `update_wellformed` (unique addresses, canonical order) this determines
+the validator list up to priorities; with `update_perm_invariant` it is independent of order. -/
+theorem update_refines_map (s s' : VSet) (c : List Val) (allow : Bool) (hpre : PreWF s.vals)
+    (hc : c ≠ []) (h : updateWithChangeSet s c allow = (s', none)) (a : Nat) :
+    powerMap s'.vals a = applyBatchMap (powerMap s.vals) c a :=
+  Tmv.ValSet.update_refines_map s s' c allow hpre hc h a
+
+/-- non-vacuity / sanity: add 2, change 1 -/
+example : (fun a => powerMap (updateWithChangeSet ⟨[⟨1, 10, 0⟩], none⟩ [⟨2, 5, 0⟩, ⟨1, 7, 0⟩] true).1.vals a) 2
+    = some 5 := by decide
+
+/-! ## arbitrary round counts -/
+
+/-- **rounds_no_overflow.** Any number `k` of consecutive single rotations (what consensus does
+for `k` rounds and the chain for `k` heights since d716447/781020d) from a reachable set: all `k`
+succeed, the set stays reachable, and from the first rotation on every priority is within
+`3·total` — a bound independent of `k`, a factor > 2 inside int64. -/
+theorem rounds_no_overflow (k : Nat) (s : VSet) (hr : Reach s.vals) :
+    ∃ sk, rotations k s = some sk ∧ Reach sk.vals ∧ sumPower sk.vals = sumPower s.vals ∧
+      (1 ≤ k → PBound (3 * sumPower s.vals) sk.vals) := by
+  induction k generalizing s with
+  | zero => exact ⟨s, rfl, hr, rfl, fun h => by omega⟩
+  | succ j ih =>
+    obtain ⟨s1, h1, hr1, hap, hb1, _⟩ := priorities_no_clip s hr
+    obtain ⟨sk, h2, hrk, hT, hbk⟩ := ih s1 hr1
+    have hT1 : sumPower s1.vals = sumPower s.vals := hap.sumPower
+    refine ⟨sk, by simp only [rotations, h1]; exact h2, hrk, by rw [hT, hT1], fun _ => ?_⟩
+    cases j with
+    | zero => simp only [rotations, Option.some.injEq] at h2; rw [← h2]; exact hb1
+    | succ j' => rw [← hT1]; exact hbk (by omega)
+
+/-- **increment_k_partial.** One call `IncrementProposerPriority(k)` with arbitrary `k ≥ 1`
+(exported; no production caller passes `k > 1` any more): no clamp at any inner rotation, sum of
+priorities in `[0, n)`, every priority within `[−2·total, 2·total·n + n]` for all `k` — under
+`n·(2·total + 1) ≤ 3·MaxTotalVotingPower`. MISSING for full strength: an upper bound independent of
+the number `n` of validators (measured: `|priority| ≤ 1.08·total`), which would remove the
+hypothesis. -/
+theorem increment_k_partial (s : VSet) (hr : Reach s.vals) (k : Int) (hk : 1 ≤ k)
+    (hB : 2 * (sumPower s.vals * (s.vals.length : Int)) + (s.vals.length : Int) ≤ prioCap) :
+    ∃ s', increment s k = some s' ∧ SameAP s'.vals s.vals ∧
+      0 ≤ prioSum s'.vals ∧ prioSum s'.vals < (s.vals.length : Int) ∧
+      (∃ q, s'.proposer = some q ∧ q ∈ s'.vals) ∧
+      ∀ v ∈ s'.vals, -(2 * sumPower s.vals) ≤ v.prio ∧
+        v.prio ≤ 2 * (sumPower s.vals * (s.vals.length : Int)) + (s.vals.length : Int) :=
+  increment_k_bounded s hr k hk hB
+
+/-- non-vacuity: 150 validators with total 10^15 satisfy the hypothesis -/
+example : 2 * ((1000000000000000 : Int) * 150) + 150 ≤ prioCap := by decide
+
 /-! ## turns are proportional to voting power -/
+
+/-- in a window without set changes only a RESCALE can be an event: on a reachable, centred set
+(every set after a rotation or update is centred) the centring alone never changes a priority -/
+theorem event_is_rescale (s : VSet) (hr : Reach s.vals) (hc : Centred s.vals)
+    (he : normalize s.vals ≠ s.vals) : ¬ NoRescale s.vals := by
+  intro hn
+  exact he (normalize_calm s.vals prioCap hr.wf.ne (by unfold prioCap; omega) (by unfold prioCap; omega)
+    hr.bound hr.wf.total_eq hr.wf.total_pos hc hn)
+
 
 /-- **turns_proportional (no rescale in the window).** `k` consecutive single rotations without
 set changes from a reachable, centred set, no rescale triggering: for every validator
